@@ -30,6 +30,8 @@ def evalx(fn, nid, env, depth=0):
     n = fn.nodes[nid]
     k = n["k"]
     c = fn.kids(nid)
+    if k == "call" and n.get("inl_ret_var") and n["inl_ret_var"] in env:
+        return env[n["inl_ret_var"]]           # value returned by a virtually inlined helper
     if k == "ref":
         nm = n.get("name")
         if nm in env:
@@ -100,6 +102,15 @@ def evalx(fn, nid, env, depth=0):
     raise Unknown("node kind " + k)
 
 
+def _binop(op, a, b):
+    if op in ("<<", ">>") and not (0 <= b < 128):
+        raise Unknown("shift amount out of range")
+    if op in ("%", "/") and not b:
+        return 0
+    return {"+": lambda: a + b, "-": lambda: a - b, "*": lambda: a * b, "&": lambda: a & b, "|": lambda: a | b, "^": lambda: a ^ b,
+            "<<": lambda: a << b, ">>": lambda: a >> b, "%": lambda: a % b, "/": lambda: a // b}[op]()
+
+
 def eval_prefix(fn, env, max_blocks=64):
     """Constant propagation over the loop-free prefix of a function for ONE point of a finite input grid: starting at the entry block,
     declarations / assignments of integer locals whose right-hand side is evaluable are recorded, evaluable branch conditions are
@@ -139,8 +150,7 @@ def eval_prefix(fn, env, max_blocks=64):
                             elif nm in env:
                                 a = env[nm]
                                 op = n["op"][:-1]
-                                val = {"+": a + r, "-": a - r, "*": a * r, "&": a & r, "|": a | r, "^": a ^ r, "<<": a << r, ">>": a >> r,
-                                       "%": (a % r if r else 0), "/": (a // r if r else 0)}[op]
+                                val = _binop(op, a, r)
                                 env[nm] = wrap(val, lhs.get("t"))
                         except Unknown:
                             env.pop(nm, None)
@@ -199,3 +209,75 @@ def eval_pure(fn, env, max_blocks=64):
         else:
             raise Unknown("no successor")
     raise Unknown("too long")
+
+
+def run_until(fn, env, stop, max_steps=2000, on_event=None):
+    """Finite execution of a function for ONE point of a finite input grid, following the single feasible path (loops included, bounded
+    by max_steps) until an event for which stop(fn, nid) holds.  Integer locals only: declarations, (compound) assignments, ++/--; calls are
+    evaluated through env["call:<leaf>"] callables (atomic loads: env["load:<field leaf>"]), values of virtually inlined helpers through their
+    return variable.  Returns (env, stop event) - stop event None if the function returned first.  Raises Unknown when a branch condition
+    cannot be evaluated.  This interprets the extracted CFG on chosen integers; no library code runs."""
+    env = dict(env)
+
+    def ev(nid):
+        n = fn.nodes[nid]
+        if n["k"] == "call":
+            a = fn.atomic(nid)
+            if a and a["kind"] == "load":
+                key = "load:" + a["field"].split("::")[-1]
+                if key in env:
+                    v = env[key]
+                    return v() if callable(v) else v
+        return evalx(fn, nid, env)
+
+    b = fn.entry
+    steps = 0
+    while b is not None:
+        blk = fn.blocks[b]
+        for e in blk["elems"]:
+            steps += 1
+            if steps > max_steps:
+                raise Unknown("no termination within %d steps" % max_steps)
+            n = fn.nodes[e]
+            if stop(fn, e):
+                return env, e
+            if on_event is not None:
+                on_event(fn, e, env)
+            if n["k"] == "decl":
+                for v in n["vars"]:
+                    if "init" in v:
+                        try:
+                            env[v["name"]] = wrap(ev(v["init"]), v.get("t"))
+                        except Unknown:
+                            env.pop(v["name"], None)
+            elif n["k"] == "bin" and n["op"] in ("=", "+=", "-=", "*=", "&=", "|=", "^=", "<<=", ">>=", "%=", "/="):
+                c = fn.kids(e)
+                lhs = fn.nodes[c[0]]
+                if lhs["k"] == "ref" and lhs.get("dk") in ("local", "param"):
+                    nm = lhs["name"]
+                    try:
+                        r = ev(c[1])
+                        if n["op"] == "=":
+                            env[nm] = wrap(r, lhs.get("t"))
+                        elif nm in env:
+                            a_ = env[nm]
+                            op = n["op"][:-1]
+                            val = _binop(op, a_, r)
+                            env[nm] = wrap(val, lhs.get("t"))
+                    except Unknown:
+                        env.pop(nm, None)
+            elif n["k"] == "un" and n["op"] in ("++", "--"):
+                c = fn.kids(e)
+                lhs = fn.nodes[c[0]]
+                if lhs["k"] == "ref" and lhs.get("name") in env:
+                    env[lhs["name"]] = wrap(env[lhs["name"]] + (1 if n["op"] == "++" else -1), lhs.get("t"))
+            elif n["k"] == "return":
+                return env, None
+        succ = blk["succ"]
+        if not succ or all(s is None for s in succ):
+            return env, None
+        if "cond" in blk and len(succ) == 2:
+            b = succ[0] if ev(blk["cond"]) else succ[1]
+        else:
+            b = succ[0]
+    return env, None
